@@ -340,7 +340,14 @@ def rule_params_forwarded_(ctx: Ctx, rep: Report) -> None:
     rule_params_forwarded(ctx, rep, "C07.params_forwarded", ('btclib.bip32',), 40)
 
 
+def rule_no_inplace_growth_(ctx: Ctx, rep: Report) -> None:
+    """C07.no_inplace_growth: a local that starts as a parameter (or a field of one) is never grown with `+=` (see sigcommon.rule_no_inplace_growth)."""
+    from rules.sigcommon import rule_no_inplace_growth
+    rule_no_inplace_growth(ctx, rep, "C07.no_inplace_growth", ('btclib.bip32',), 1)
+
+
 RULES = [
+    ("C07.no_inplace_growth", rule_no_inplace_growth_),
     ("C07.params_forwarded", rule_params_forwarded_),
     ("C07.own_fields", rule_own_fields),
     ("C07.hardened_pub", rule_hardened_pub),
@@ -354,6 +361,9 @@ RULES = [
 ]
 
 CONTROLS = [
+    {"rule": "C07.no_inplace_growth", "name": "the HMAC data is the key itself, grown in place (F20)", "module": B,
+     "edit": lambda ctx: M.sub_expr(ctx, f"{B}.__prv_key_derivation", lambda n: isinstance(n, ast.Assign) and norm(n.targets[0]) == "xb" and isinstance(n.value, ast.BinOp),
+                                    "xb += index.to_bytes(4, byteorder='big', signed=False)")},
     {"rule": "C07.no_skip", "name": "a refused address index is skipped", "module": B,
      "edit": lambda ctx: M.sub_expr(ctx, f"{B}.derive_from_account_range_", lambda n: isinstance(n, ast.Assign) and isinstance(n.value, ast.ListComp) and "_derive" in norm(n.value),
                                     "derived = []\n    for index in address_indexes:\n        try:\n            derived.append(_derive(branch_key, f'm/{index}', None))\n        except BTClibValueError:\n            continue")},
